@@ -126,11 +126,12 @@ func init() {
 			{"I1", "isolation: no function outside init writes (store, map update, copy/append target, callee that writes through the argument, unknown external callee) memory reachable from a package-level variable; no goroutines, unsafe or sync", ruleI1},
 			{"O1", "every returned offset of the offset-returning functions (f(buf, offs, ...) -> int, ...) is provably <= len(buf): linear guards, induction on the loop index, callee postconditions (greatest fixpoint), under the API precondition offs <= len(buf); 'offset + line-end length' returns are listed as assumed", ruleO1},
 			{"O3", "no non-error return of an offset-returning function carries an offset before the one passed in (offs - result <= 0 proved with the same prover: induction on the scan index, callee postconditions, guards); error verdicts are exempt because their offset may point back at the offending text", ruleO3},
+			{"PG", "termination skeleton: every loop of the package has an integer ranking variable (a phi at the loop head) that every way round the loop strictly increases — by a positive constant, by a proved guard, or by the offset of a callee that returns past its start offset on every return feasible on that back edge (verdict sets), where 'past' may come from the byte argument: the byte at the returned index cannot be the byte seen at the call; callee progress that is not provable is reported as assumed with callee and site; upper bounds are the loop conditions and rule O1", rulePG},
 			{"G", "every index and slice expression outside init is discharged by a frozen proof rule: G2 index range (intervals, masks, enum guards) within a fixed array length; G3 dominated by a linear guard on the same SSA values (i < len(buf), i+1 < len(buf), N < len(arr) with no intervening write); the trusted accessor GetPField; named exceptions", ruleG},
 			{"P2", "PField.Set/Extend argument discipline: every end argument is provably <= len(buf); start <= end is proved or the start is a saved past index (assumed by index monotonicity); every store to a saved-index state field (soffs, pstart, pend, vstart, vend, msg.offs, PField.Offs) stores 0 or a value provably <= len(buf) - the inductive invariant behind the saved-index axiom of G/O1", ruleP2},
 			{"P1", "explicit panic calls outside init are confined to the two documented PField assertions", ruleP1},
 		},
 		Assumptions: []string{"offs >= 0 and resume-with-returned-offset API preconditions", "callers do not write through []byte names returned from package tables"},
-		NotDecided:  "termination of the automata loops; that every returned offset lies inside the buffer; PField.Get on reported fields (containment is a value property, C05)",
+		NotDecided:  "termination beyond the progress skeleton of rule PG; PField.Get on reported fields (containment is a value property, C05)",
 	})
 }
